@@ -9,7 +9,7 @@ CHECKS = {
  "C16": ("5 C16",
   "doCmdCmp: the recorded updates change only on a normal return of a plain (not cmpenv), non-negated comparison that failed against a file of the script archive under UpdateScripts, and then exactly the entry keyed by that file's archive name is set to the actual text; "
   "every other map entry and every other path leaves the recorded updates untouched (cmpenv, negated cmp and files outside the archive never modify the script). "
-  "applyScriptUpdates: the archive keeps its number, order and names of entries; an entry whose name has no recorded update keeps its data; the script file is written once, to ts.file, with Format(ts.archive); the comment is not written to (frame).",
+  "applyScriptUpdates: the archive keeps its number, order and names of entries; an entry whose name has no recorded update keeps its data; the script file is written once, to ts.file, with Format(ts.archive); the comment is not written to (frame). The script file is written only when at least one update was recorded.",
   "assumed: ReadFile/Logf/MkAbs are side-effect free on the modelled state (trusted), diff.Diff is pure, os.WriteFile and txtar.Format as extern contracts; map iteration order is arbitrary. "
   "NOT decided: that an updated entry holds exactly the actual content (quoted iff NeedsQuote) — the map-iteration model does not give 'each key exactly once'; the fix-point clause (re-running passes and changes nothing) relies on C03's round trip and is not stated as a lemma here; "
   "the explicit panic for an update whose entry is missing is allowed (allowpanic)",
@@ -18,14 +18,14 @@ CHECKS = {
   "Contracts on every function of the import reader over a ghost input stream: the buffer always holds exactly the input bytes read so far (after an optional byte-order mark), errors and EOF are sticky, "
   "every slice expression (r.buf[start:], r.buf[:len-1]) is in bounds for arbitrary input and arbitrary I/O errors, the explicit 'import reader looping' panic is unreachable (nerr is bounded by per-function budgets), "
   "and ReadImports / ReadComments return only bytes read from the input: a prefix of it, which on a nil error is either everything read minus the peeked byte or the whole input. "
-  "Agreement with go/parser on valid files (import list, re-parsable prefix, BOM) is checked by a bounded stand-in only.",
+  "Agreement with go/parser on valid files (import list, re-parsable prefix, BOM) is checked by a bounded stand-in only. readIdent leaves the byte that ends the identifier peeked (not consumed).",
   "assumed: bufio.Reader.ReadByte/Peek/Discard over the ghost input, package-level error values are distinct non-nil constants; termination of the scanning loops is not shown (no decreases clauses); "
   "bounded: go/parser agreement over generated files (2 BOM variants x 3 package clauses x up to 3/4 import sections from a 9-element vocabulary x 4 tails); the Go grammar has no contract-level specification",
   "contract-based deductive verification (representation invariant + ghost input, 12 functions, 360+ VCs; z3/cvc5) plus a labelled bounded differential stand-in against go/parser"),
  "C19": ("5 C19",
   "Functional contracts on imports.matchTag (rune loop with an inductive invariant), matchTags (recursive; comma = AND, !, !!), matchOS and MatchFile: each result equals a specification "
   "written from the build-constraint rules (android also selects linux, tags[\"*\"] accepts everything but ignore), for every name and every non-nil tag map; ShouldBuild is proved memory-safe "
-  "(all slice/index expressions incl. f[0]) and its line evaluation goes through matchTags' contract; its block/line structure is compared with go/build/constraint by a bounded stand-in.",
+  "(all slice/index expressions incl. f[0]) and its line evaluation goes through matchTags' contract; its block/line structure is compared with go/build/constraint by a bounded stand-in. ShouldBuild evaluates options only for a line whose first field is exactly +build; ScanDir scans a directory entry only if it is a regular file whose name does not start with _, ends in .go and passes MatchFile's rule.",
   "assumed: extern contracts for strings.Index/Split/Fields/HasPrefix, bytes.IndexByte/TrimSpace/HasPrefix, unicode.IsLetter/IsDigit (uninterpreted), UTF-8 decoding (uninterpreted runeAt/runeW); "
   "nil tag maps are outside the contracts (requires tags != nil); MatchFile's specification is close to the code (spec-near) except for the OS-selection rule; "
   "bounded: ShouldBuild vs go/build/constraint over blocks of up to 4 (quick) / 6 (thorough) lines from a 10-line vocabulary (incl. a comment that merely starts with +build and a term with a trailing comma) and 4 tag sets",
@@ -47,7 +47,7 @@ CHECKS = {
  "C05": ("5 C05",
   "Lookup side of the property, for arbitrary bytes in the index entry and data file: every index/slice expression of get (176-byte buffer, four re-slicings, two hex.Decode calls whose length precondition is checked) is in bounds, "
   "so no lookup panics; every error returned by get/Get/GetBytes/GetFile is the not-found error type; get succeeds only on a record of exactly the specified size with the specified header/separator bytes, "
-  "whose decoded action id equals the requested id, and with non-negative size and time; GetBytes returns data only when sha256(data) equals the reported OutputID; GetFile returns a name only when the file's length equals the reported size.",
+  "whose decoded action id equals the requested id, and with non-negative size and time; GetBytes returns data only when sha256(data) equals the reported OutputID; GetFile returns a name only when the file's length equals the reported size. Put hashes and copies its source from offset 0 (ghost seek position), and the store-side step obligations of C11/C12 are part of this check's set.",
   "assumed: extern contracts for io.ReadFull, encoding/hex.Decode, strconv.ParseInt, crypto/sha256.Sum256 (uninterpreted, deterministic), os.Stat/ReadFile/Open; [32]byte values compare as whole arrays. "
   "NOT decided by this check: the store side (Put then Get returns exactly the data; repair of a damaged output) — put/copyFile/putIndexEntry are not yet under contract, see C12/C11 in not_applicable",
   "contract-based deductive verification: safety and functional postconditions over go/ssa with ghost bindings of the read buffer; z3/cvc5"),
@@ -64,7 +64,7 @@ CHECKS = {
   "Rely-guarantee proof of the runner bookkeeping with ghost counters per Work (sleeping S, signalled K, exited X, in-f F, runners spawned): under arbitrary interference allowed by the rely clause, every step of Add, Do and runner "
   "(stores to waiting/todo, Signal, Broadcast, the two phases of Cond.Wait, Lock/Unlock with their ghost transitions) re-establishes the invariant: waiting == S+K+X while the mutex is free, S+K+X+F never exceeds the runners spawned (<= n), "
   "nobody sleeps once waiting == running, and queued work with no exited runner means not every runner is asleep (no lost wake-up / all-asleep state). Named consequences: a runner returns (and Do with it) only with F == 0 and an empty queue; "
-  "f is called outside the lock while counted in F (at most n at a time); Do starts exactly n-1 goroutines plus itself; rand.Intn is called with a non-empty queue.",
+  "f is called outside the lock while counted in F (at most n at a time); Do starts exactly n-1 goroutines plus itself; rand.Intn is called with a non-empty queue. While any runner sleeps, every queued item has a signalled runner of its own (an Add that finds a sleeper always wakes one).",
   "assumed: sync.Mutex / sync.Cond semantics as two-phase contracts (Wait returns only to a signalled sleeper, no spurious wake-ups), the ownership reading of the rely clause (each active runner owns one unit of spawned - (S+K+X+F)), "
   "Work.running/f/wait.L are written only by Do before the runners start (not in the shared set); f touches the Work only through Add. "
   "NOT decided: that each distinct item is passed to f exactly once and duplicates are ignored (needs an invariant over the contents of todo and added), and termination/liveness proper (fair scheduler, terminating f)",
@@ -86,7 +86,7 @@ CHECKS = {
  "C12": ("5 C12",
   "copyFile: once the output file has been opened for writing, every error return is preceded by truncating the file to zero length or removing it (ghost history flag set by the step contracts), unless that clean-up step is itself the single permitted failing operation; "
   "the last (size-completing) byte is written only after bytes.Equal on the running hash and the expected output id returned true. putIndexEntry: an error is returned only after trying to remove the entry file. "
-  "put: a failing copyFile returns its error and putIndexEntry is never reached; no other path of put calls it.",
+  "put: a failing copyFile returns its error and putIndexEntry is never reached; no other path of put calls it. The output file is only ever truncated to length zero (never pre-sized), so it cannot have its final size before the committing byte.",
   "assumed: step contracts of os.OpenFile / Truncate / Remove / Write / Close, io.CopyN and io.MultiWriter (abstract), hash.Hash (abstract), the source reader (abstract); stopping between two steps is the same state as returning after the first (atomic-step view). "
   "NOT decided: the byte-level invariant 'the data file never reaches the expected size with unverified content' during the copy (needs a positional content model of overwriting an existing shorter/equal file), and the exotic case of overwriting in place a same-size file whose verification could not be opened",
   "contract-based deductive verification: ghost clean-up history, single-failure budget, call-site ordering obligations; z3/cvc5"),
@@ -94,7 +94,7 @@ CHECKS = {
   "Contracts over ghost mtimes, a monotone clock and integer nanoseconds: used() leaves an existing file's mtime younger than (now - 1h) when no file operation fails; OutputFile calls it on the name it returns; "
   "trimSubdir calls os.Remove only on Join(subdir, n) for listed names n ending in -a/-d whose mtime is before the cutoff (call-site obligation) and, when nothing fails, removes every such name (loop invariant); "
   "Trim passes cutoff = now - 5d - 1h, performs no file-changing step at all when the last-trim record as read parses to a time within (-1h, 24h) of now, and otherwise (on success) rewrites the record; "
-  "lemma retention: an entry used within the last five days is never older than the cutoff.",
+  "lemma retention: an entry used within the last five days is never older than the cutoff. A successful GetFile (like OutputFile) leaves the data file's mtime younger than one hour before the call.",
   "assumed: time as mathematical nanoseconds (time.Unix overflow on absurd trim.txt values is outside the model), monotone clock readings (callee clause on c.now), extern contracts of os.Stat/Chtimes/Remove/Open, "
   "Readdirnames returns every name of the directory; that the 256 subdirectory names are Join(dir, %02x) is not decided (fmt.Sprintf is uninterpreted), nor the textual content written to trim.txt",
   "contract-based deductive verification: ghost fs/mtime/clock state, call-site obligations, ghost bindings of call results, loop invariants; z3/cvc5"),
@@ -117,7 +117,7 @@ CHECKS = {
   "Verdict logic under contract: run executes a line only while no line has failed unless ContinueOnError and never after stop; a failing line without ContinueOnError reaches FailNow; run returns normally only if no line failed (a failure with ContinueOnError still ends in FailNow: no false pass); "
   "PASS is logged only for a run that neither failed nor stopped; Fatalf's FAIL line carries the script's file name and current line number; runLine never dispatches an unknown command and indexes its argument list safely for every line; "
   "catchFailNow runs its callback only for the failNow panic value; the polarity applied to each [cond] guard is that of this very guard; demands of exists (every listed file exists, or with ! does not) and of stdout/stderr/grep/ttyout (match, or with ! no match; with -count=N exactly N matches) hold on every normal return; "
-  "for cd, chmod, cp, mkdir, mv, symlink, unquote, unix2dos, stdin, stop, cmp/cmpenv, wait and rm a normal return means the command was not negated where negation is unsupported, was used with the right number of arguments (every args index in bounds), and (except rm's best-effort first removal) no file operation it performed failed; skip never returns normally.",
+  "for cd, chmod, cp, mkdir, mv, symlink, unquote, unix2dos, stdin, stop, cmp/cmpenv, wait and rm a normal return means the command was not negated where negation is unsupported, was used with the right number of arguments (every args index in bounds), and (except rm's best-effort first removal) no file operation it performed failed; skip never returns normally. condition() is under contract (an operating-system name holds exactly for the current OS, an architecture name for the current architecture, unix per the table, gc/gccgo, exec: through the cache; anything else needs a user Condition, else Fatalf); the standalone command's Run never clears its failure flag (a failing script followed by a passing one still exits non-zero).",
   "assumed: only non-panicking executions are modelled (a Fatalf call ends its path, recover() is nil), so runLine's boolean result and callBuiltinCmd's panic filtering are trusted, as are condition, cmdEnv, waitBackgroundOne, unix2DOS and the logging closures (setup and waitBackground are verified under C04); "
   "T.FailNow / T.Fatal do not return; regexp semantics are uninterpreted (matchP / countP). NOT decided: env, kill, ttyin; what a successful cp/mv/mkdir/... did to the file system (the OS's); the evaluation of a condition itself (condition() is trusted), background-command status in wait, and the standalone testscript command's exit status; exec's verdict is covered as far as C04's process accounting and the usage check go",
   "contract-based deductive verification: loop invariant over the script loop, call-site obligations and per-command postconditions over go/ssa; z3/cvc5"),
@@ -125,7 +125,7 @@ CHECKS = {
   "Contracts on the tokenizer parse (every line[i], line[i+1], line[start:i] in bounds for every line; the scan terminates; every call of expand happens outside quotes, i.e. quoted text is never expanded), "
   "on the expansion closure (${NAME@R} is regexp.QuoteMeta of NAME's value, any other key its value), on Getenv/Setenv (Setenv appends key=value to the child environment list and sets the same value in the lookup map), "
   "and call-site obligations that exec and execBackground start the child with Dir = the script's directory and Env = the script's list plus PWD. "
-  "The splitting function itself (words, '' , #, no re-splitting / re-expansion of values) is compared with a reference tokenizer written from the property text by a bounded stand-in.",
+  "The splitting function itself (words, '' , #, no re-splitting / re-expansion of values) is compared with a reference tokenizer written from the property text by a bounded stand-in. The last entry of a child's environment is PWD= followed by the script's current directory, for foreground and background commands.",
   "assumed: os.Expand applies the mapping to $NAME / ${NAME} references (its grammar is not modelled), regexp.QuoteMeta matches exactly its argument, os/exec uses the last duplicate in Env; waitOrStop, pty helpers and execpath.Look are trusted (pure); "
   "the pointwise agreement of the env list with envMap across all assignments (lastVal) is not stated as an invariant, only the per-Setenv step; bounded: tokenizer vs reference over lines of up to 5 (quick) / 7 (thorough) tokens from an 11-token vocabulary (incl. a two-byte UTF-8 letter whose second byte is 0xA0) with two variables whose values contain blanks, quotes and a $ reference",
   "contract-based deductive verification (safety, termination and call-site obligations over go/ssa; z3/cvc5) plus a labelled bounded stand-in for the tokenizer's functional behaviour"),
@@ -142,7 +142,7 @@ CHECKS = {
   "Contracts on the request handler, the zip-building closure and allHex over a ghost response (status set, number of body writes) and ghost zip-entry counters: "
   "a .info / .mod request answers with exactly one write, of the data of the first stored file named .info / .mod, and nothing else; the zip closure creates an entry only for stored files whose name does not start with a dot, "
   "under the name path@version/<file name> (byte-exact) and writes exactly that file's data into it; the list endpoint prints only versions of the requested module path that are not pseudo-versions and pass module.Check, and prints that entry's version; "
-  "every request is answered (a body write or a status), a 404 never carries a body, missing archives / unknown extensions / undecodable paths give 404; the handler writes no field of the Server (frame: modList and the caches are read only); all slice/index expressions are in bounds for arbitrary URLs.",
+  "every request is answered (a body write or a status), a 404 never carries a body, missing archives / unknown extensions / undecodable paths give 404; the handler writes no field of the Server (frame: modList and the caches are read only); all slice/index expressions are in bounds for arbitrary URLs. The commit-hash resolution considers only versions of the requested module, updates its choice only to a semver-greater version, decides pseudo-versions by their suffix and others by findHash, and tests the prefix relation both ways; the path part is decoded with UnescapePath and the version part with UnescapeVersion; the directory walk never skips a directory; readModList splits names at the last _v.",
   "assumed (trusted, not verified): readArchive/findHash/isPseudoVersion are side-effect free and unspecified (archive loading from .txt/.txtar/directories is NOT decided); par.Cache.Do runs the closure and returns its value (C10's contract is not re-used here: a local thin contract, type assertion .(cached) assumed); "
   "archive/zip, net/http, fmt.Fprintf, x/mod module and semver as extern contracts; byte-identity of the HTTP body on the wire and validity of the zip container are the libraries'; 'same under concurrent requests' follows only from the frame (handler writes no server state) plus C10 on paper; the commit-hash to version resolution is proved safe but not functionally specified",
   "contract-based deductive verification: call-site obligations and loop invariants over a ghost HTTP response, byte-level string concatenation for the zip entry names; z3/cvc5"),
@@ -153,7 +153,7 @@ CHECKS = {
   "Defer builds a closure that calls f with the old chain already deferred (LIFO, old chain runs even if f panics). "
   "Processes: exec leaves started-minus-reaped unchanged; cmdExec records a started background command in ts.background before any call that can stop the script, its wait channel is closed only after waitOrStop, which returns only after cmd.Wait returned; "
   "waitBackground and run's clean-up closure receive from every recorded wait channel on both branches before clearing the list. "
-  "RunT hands pairwise distinct names to t.Run (partial contract: only this clause and its loop invariants are proved for RunT); RunT's per-script closure allocates a fresh TestScript, registers the clean-up before run; the clean-up removes ts.workdir unless retention was requested and removes the shared root (and cancels) exactly when its own atomic decrement brings the count to zero; removeAll removes the tree it was asked to.",
+  "RunT hands pairwise distinct names to t.Run (partial contract: only this clause and its loop invariants are proved for RunT); RunT's per-script closure allocates a fresh TestScript, registers the clean-up before run; the clean-up removes ts.workdir unless retention was requested and removes the shared root (and cancels) exactly when its own atomic decrement brings the count to zero; removeAll removes the tree it was asked to. writeFile opens with create+truncate and exclusively exactly when asked to; waitBackgroundOne (pointers into the background slice, outside the modelled subset) is covered by a BOUNDED stand-in only: every list of up to 3 (quick) / 4 (thorough) entries on real processes, every named target: exactly that entry is removed after its process was waited for.",
   "NOT decided: non-interference between parallel scripts beyond 'fresh per-script state, no os.Environ, distinct clean-up' (scripts sharing files through absolute paths, cd, or chdir of the process are outside any per-call contract); that a signalled process really dies and os.RemoveAll succeeds; the Fatalf/FailNow paths run deferred functions by runtime.Goexit (Go semantics, assumed). "
   "assumed (trusted): user clean-up functions (run$4) do not touch ts.background; writeFile, homeEnvName/tempEnvName, abbrev, the pty helpers of exec; externs for os/exec, os, filepath, context, fmt; Params.Setup modifies only Env fields, ts.deferred, strings and files; "
   "waitBackground is verified without its index/type-assertion safety (nosafety, assume_typeasserts)",
